@@ -25,7 +25,7 @@
    profile: allow). *)
 From Coq Require Import List NArith Bool.
 From Verif.Common Require Import Labels Packet.
-From Verif.C29 Require Import Model.
+From Verif.C29 Require Import Model ModelText.
 Import ListNotations.
 Open Scope N_scope.
 
@@ -295,7 +295,11 @@ Record case := {
   (* cross-check of the selector semantics used on the Calico side: every distinct selector of the converted
      policies (as parsed by the real parser) with, for each pod in order, the verdict of the REAL evaluator
      (parser.Selector.Evaluate) on the pod's real labels with the real profiles' labels inherited *)
-  k_sel_evals : list (ast * list bool)
+  k_sel_evals : list (ast * list bool);
+  (* the selector STRINGS of the real converted policies: a table of the distinct strings and, per policy, the
+     indices of [Selector; (SrcSelector, DstSelector) of each inbound rule; ... of each outbound rule] *)
+  k_text_table : list bytes;
+  k_impl_texts : list (list nat)
 }.
 
 Definition kns_name (ns : bytes) : bytes := KNS ++ ns.
@@ -344,7 +348,12 @@ Definition agree (c : case) : bool :=
                        end) (cl_sa (k_cluster c))
   && forallb (fun e => list_eqb Bool.eqb
                          (map (fun ip => let ce := impl_cep c ip in matches (fst e) (ce_labels ce) (ce_parents ce)) (k_pods c))
-                         (snd e)) (k_sel_evals c).
+                         (snd e)) (k_sel_evals c)
+  (* text level (ModelText.v): the strings the model builds are the strings of the real policies, and the parser
+     (C06 model) maps them to the ASTs of Model.v *)
+  && list_eqb (list_eqb bytes_eqb) (map np_texts (k_nps c))
+              (map (map (fun i => nth i (k_text_table c) [])) (k_impl_texts c))
+  && forallb (fun np => texts_parse_to (np_texts np) (policy_asts (conv_np_v (k_infer c) np))) (k_nps c).
 
 (* the property, evaluated on the IMPLEMENTATION's converted policies, labels and profiles: for every
    generated connection the Calico verdict equals the Kubernetes verdict *)
